@@ -138,7 +138,28 @@ def handClass : String → Option Cls
   | "Mesh.ScanFloat2Attribute" | "Mesh.ScanFloat2AttributeParallel" | "Mesh.ScanFloat2AttributeParallelWithPoolSize"
   | "Mesh.ScanFloat3Attribute" | "Mesh.ScanFloat3AttributeParallel" | "Mesh.ScanFloat3AttributeParallelWithPoolSize"
   | "Mesh.ScanFloat4Attribute" => some .readOnly
+  -- modeling/meshops: the exported functions that return one mesh
+  | "meshops.FlipTriangleWinding" => some .setIndices
+  | "meshops.NormalizeAttribute2D" | "meshops.ScaleAttribute2D" => some (.setAttr 1)
+  | "meshops.CenterFloat3Attribute" | "meshops.ColorGradingLut" | "meshops.FlatNormals" | "meshops.LaplacianSmooth"
+  | "meshops.LaplacianSmoothAlongAxis" | "meshops.NormalizeAttribute3D" | "meshops.RotateAttribute3D" | "meshops.ScaleAttribute3D"
+  | "meshops.ScaleAttributeAlongNormal" | "meshops.SmoothNormals" | "meshops.SmoothNormalsImplicitWeld"
+  | "meshops.TranslateAttribute3D" | "meshops.VertexColorSpace" => some (.setAttr 2)
+  | "meshops.CropFloat3Attribute" | "meshops.FilterFloat1" | "meshops.FilterFloat2" | "meshops.FilterFloat3" | "meshops.FilterFloat4"
+  | "meshops.RemovedUnreferencedVertices" | "meshops.Unweld" => some (.rebuild .share)
   | _ => none
+
+/-- functions that behave as one of TWO classes depending on the input (`RemoveNullFaces3D` returns the mesh passed in when
+    there is nothing to remove, else rebuilds; the harness sends `identity` or `rebuild share` accordingly).  The extractor
+    joins all return statements, so for these the comparison is per component against the union of the two class summaries. -/
+def handTwoClasses : String → Option (Cls × Cls)
+  | "meshops.RemoveNullFaces3D" => some (.readOnly, .rebuild .share)
+  | _ => none
+
+def Comp.union (a b : Comp) : Comp := ⟨a.obj ++ b.obj, a.ent ++ b.ent⟩
+
+def FnSummary.fitsEither (s : FnSummary) (c d : Cls) : Bool :=
+  s.comps.length == 7 && fitsAll s.comps (List.zipWith Comp.union c.spec d.spec)
 
 /-- functions of the regenerated table that are deliberately NOT classified (dynamic dispatch) -/
 def notOneOperation : List String := ["Mesh.Transform"]
